@@ -139,6 +139,18 @@ CHECKS = {
         "runtime monitoring: reference-model oracle over captured DOT sources + invariant check at a quiescent hook",
         "3/C13",
     ),
+    "C18": (
+        "exploration",
+        "Runtime monitor over complete FORD runs (forked child): programs whose declarations carry HTML/Markdown-significant text "
+        "(literals in initial values via attribute or PARAMETER statement, relational expressions in initial values, kinds, lengths, "
+        "dimensions, DIMENSION attributes, component defaults, namelist members, interface arguments, bind names, prefixed function "
+        "headings; `lower` on/off) are run together with a same-width benign twin; oracles: each fragment is found verbatim in the text "
+        "of the page that displays it (blanks inside literals compared up to run length), the (tag, attribute-name) sequence of every "
+        "page equals the twin's, and the page text mapped through the character replacement equals the twin's text.",
+        "Runs of blanks are collapsed (non-breaking spaces by design); html.parser defines the DOM.",
+        "runtime monitoring: reference + differential-DOM (hostile vs benign twin) oracle over generated pages",
+        "3/C18",
+    ),
     "C14": (
         "exploration",
         "Runtime monitor (metamorphic) on the real fixed-to-free converter + reader + parser: each generated program is written "
